@@ -497,7 +497,7 @@ class History:
             return
         story = rng.choice(["child-before-parent-answer", "unrequested-while-round-open", "announced-then-unrequested",
                             "late-answer-after-child", "answers-lower-block-refusal", "same-header-other-body",
-                            "altered-copy-while-holding-answers"])
+                            "altered-copy-while-holding-answers", "answers-refusal-same-answers-again"])
         c["download_route_stories"] = c.get("download_route_stories", 0) + 1
         c["story:" + story] = c.get("story:" + story, 0) + 1
         ms = self.wire.ms
@@ -637,6 +637,56 @@ class History:
                         world.accept(rb_, real_, cs=world.cs)
                     before_cs = cm.coinstate
                     rows_before = self.rows()
+            elif story == "answers-refusal-same-answers-again":
+                us, pid = [], head
+                for _k in range(rng.choice([1, 2, 3])):
+                    u = valid_on(tmp, pid)
+                    us.append(u)
+                    pid = u[0].id()
+                got = bad_on(tmp, pid)
+                u4 = valid_on(tmp, pid, dt=3)
+                if not got:
+                    return
+                bad, cls, codes = got
+                self.net.clock.t = world.now = max(world.now, bad.ts + 10, u4[0].ts + 10)
+                a, b = rng.sample(self.active_raws(), 2)
+                for k, (rb_, real_) in enumerate(us):
+                    a.push(self.wire.block(real_, in_response_to=4300 + k))
+                self.net.settle(node)
+                b.push(self.wire.block(bridge.rblock_to_real(bad)))
+                self.net.settle(node)
+                refused(bad, cls, codes, "relayed on top of blocks taken as download answers")
+                # the node asks again and gets the same answers (from the same peer, reconnected, or from another one)
+                # (the peer that sent the refused block may have been dropped for it: whoever is connected goes on)
+                alive = self.active_raws() or [self.add_peer()]
+                again = rng.choice(alive)
+                for k, (rb_, real_) in enumerate(us):
+                    again.push(self.wire.block(real_, in_response_to=4400 + k))
+                self.net.settle(node)
+                alive = self.active_raws() or [self.add_peer()]
+                b = rng.choice(alive)
+                act_before = set(id(r) for r in self.active_raws())
+                b.push(self.wire.block(u4[1]))
+                self.net.settle(node)
+                rows = self.rows()
+                if u4[0].id() not in cm.coinstate.block_by_hash:
+                    mon.v("valid-block-after-rejection-not-accepted", "download answers, a refused relayed block (class %s: %s), the same "
+                          "answers again (%d of %d held afterwards), then a valid relayed block on top: it is not part of the chain state" % (
+                              cls, sorted(codes), sum(1 for x in us if x[0].id() in cm.coinstate.block_by_hash), len(us)), w)
+                else:
+                    missing = [x[0].height for x in us + [u4] if rows.get(x[0].id(), 0) != 1]
+                    if missing:
+                        mon.v("accepted-block-not-stored-after-rejection", "download answers, a refused relayed block, the same answers again, "
+                              "then a valid relayed block: blocks at heights %s are part of the chain state but have no row in the store "
+                              "(write buffer holds %d)" % (missing, len(self.store.write_buffer)), w)
+                    elif all(x[0].id() in cm.coinstate.block_by_hash for x in us):
+                        for rb_, real_ in us + [u4]:
+                            world.cs = world.cs.add_block_no_validation(real_)
+                            world.accept(rb_, real_, cs=world.cs)
+                        before_cs = cm.coinstate
+                        rows_before = self.rows()
+                if id(b) in act_before and b not in self.active_raws():
+                    mon.v("honest-sender-disconnected", "the peer that relayed a valid block was disconnected", w)
             elif story == "altered-copy-while-holding-answers":
                 us, pid = [], head
                 for _k in range(rng.choice([1, 3])):
